@@ -338,7 +338,7 @@ def is_none_const(e):
     return isinstance(e, ast.Constant) and e.value is None
 
 
-def provenance(expr, fr, F, _seen=None, depth=0):
+def provenance(expr, fr, F, _seen=None, depth=0, _calls=None):
     """Flow-insensitive def-use closure of an expression inside one function
     (analysis A8): the set of sources it may derive from --
       ('param', name), ('path', canonical path), ('call', canonical path),
@@ -348,6 +348,7 @@ def provenance(expr, fr, F, _seen=None, depth=0):
     if expr is None:
         return out
     seen = _seen if _seen is not None else set()
+    calls_seen = _calls if _calls is not None else set()
     f = fr.func
     defs = F.b.local_defs(f)
     for n in ast.walk(expr):
@@ -361,12 +362,15 @@ def provenance(expr, fr, F, _seen=None, depth=0):
             if depth < 3:
                 tgt = F.b.resolve_call(n, fr)
                 if tgt is not None and not tgt.func.is_generator and \
-                        not any(a.func is tgt.func for a in fr.chain()):
+                        not any(a.func is tgt.func for a in fr.chain()) and \
+                        tgt.func.qualname not in calls_seen:
+                    calls_seen.add(tgt.func.qualname)
                     nf = F.b.make_frame(n, tgt, fr)
                     from .model import walk_local as _wl
                     for r in _wl(tgt.func.node):
                         if isinstance(r, ast.Return) and r.value is not None:
-                            out |= provenance(r.value, nf, F, None, depth + 1)
+                            out |= provenance(r.value, nf, F, None, depth + 1,
+                                              calls_seen)
         elif isinstance(n, ast.Attribute):
             out.add(('attr', n.attr))
             if dotted(n):
@@ -380,7 +384,8 @@ def provenance(expr, fr, F, _seen=None, depth=0):
                         and depth < 6:
                     e, pf, how = fr.bindings[n.id]
                     if e is not None:
-                        out |= provenance(e, pf, F, None, depth + 1)
+                        out |= provenance(e, pf, F, None, depth + 1,
+                                          calls_seen)
             elif n.id in defs:
                 if n.id in f.params:
                     out.add(('param', n.id))
@@ -390,11 +395,13 @@ def provenance(expr, fr, F, _seen=None, depth=0):
                 seen.add(key)
                 for d in defs[n.id]:
                     if isinstance(d, tuple):        # ('with', ctx expr)
-                        out |= provenance(d[1], fr, F, seen, depth)
+                        out |= provenance(d[1], fr, F, seen, depth,
+                                          calls_seen)
                     elif d is not None:
-                        out |= provenance(d, fr, F, seen, depth)
+                        out |= provenance(d, fr, F, seen, depth, calls_seen)
                     else:
-                        out |= _unpack_sources(n.id, fr, F, seen, depth)
+                        out |= _unpack_sources(n.id, fr, F, seen, depth,
+                                               calls_seen)
             else:
                 p = F.b.canon(n, fr)
                 if p is not None:
@@ -402,7 +409,7 @@ def provenance(expr, fr, F, _seen=None, depth=0):
     return out
 
 
-def _unpack_sources(name, fr, F, seen, depth):
+def _unpack_sources(name, fr, F, seen, depth, calls_seen=None):
     """Definitions through tuple unpacking / for targets / augmented
     assignment: use the right-hand side as a whole."""
     from .model import walk_local
@@ -420,7 +427,7 @@ def _unpack_sources(name, fr, F, seen, depth):
             tgt, val = n.target, n.value
         if tgt is not None and any(isinstance(e, ast.Name) and e.id == name
                                    for e in ast.walk(tgt)):
-            out |= provenance(val, fr, F, seen, depth)
+            out |= provenance(val, fr, F, seen, depth, calls_seen)
     return out
 
 
